@@ -171,7 +171,10 @@ EXTRA = {
     "C17": [P10, RND, ("fpdec-core/src/lib.rs", KERNELS + r"|adjust_coeffs"), STRUCT],
     "C18": [P10, STRUCT],
     "C19": [("src/round.rs", None), ("src/binops/mul.rs", None), ("src/binops/div.rs", None), ("src/format.rs", r"Display")],
-    "C20": [P10, RND, ("fpdec-core/src/lib.rs", None), STRUCT],
+    "C20": [P10, RND, ("fpdec-core/src/lib.rs", None), STRUCT] + [(f, None) for f in (
+        "src/binops/checked_add_sub.rs", "src/binops/checked_mul.rs", "src/binops/mul_rounded.rs", "src/binops/div.rs",
+        "src/binops/checked_div.rs", "src/binops/div_rounded.rs", "src/binops/rem.rs", "src/binops/checked_rem.rs",
+        "src/binops/cmp.rs", "src/quantize.rs", "src/binops/mod.rs")],
 }
 # anchor files of which only some items matter to the property
 ANCHOR_FILTER = {
